@@ -173,9 +173,19 @@ func (p *jsoncParser) _recover() bool {
 		save := p._stack
 
 		for len(p._stack) >= 1 {
-			state := p._stack.Peek(0).State
+			// Simulate, without running any action, what the parser does with ERROR
+			// as the lookahead: reductions first, then the shift of ERROR. The
+			// simulation runs on 'sim', a scratch stack of the states above real
+			// stack entry 'base' (its bottom entry stands for that entry); a
+			// reduction pops from 'sim' and, when it runs out, from the real stack
+			// below.
+			base := len(p._stack) - 1
+			var sim _Stack[_item]
+			sim.Push(_item{State: p._stack[base].State})
 
+		simulate:
 			for {
+				state := sim.Peek(0).State
 				action, ok := _Find(_actions, state, int32(ERROR))
 				if !ok {
 					break
@@ -184,7 +194,21 @@ func (p *jsoncParser) _recover() bool {
 				if action < 0 {
 					prod := -action
 					rule := _rules[int(prod)]
-					state, _ = _Find(_goto, state, rule)
+					for n := int(_termCounts[int(prod)]); n > 0; n-- {
+						if len(sim) > 1 {
+							sim.Pop(1)
+						} else if base > 0 {
+							base--
+							sim[0].State = p._stack[base].State
+						} else {
+							break simulate
+						}
+					}
+					state, ok = _Find(_goto, sim.Peek(0).State, rule)
+					if !ok {
+						break
+					}
+					sim.Push(_item{State: state})
 					continue
 				}
 
